@@ -165,6 +165,8 @@ func (jr *jpegReader) nextMarker() bool {
 			jr.marker = markerType(jr.buf[1])
 			return true
 		}
+		// Not inside an image yet: skip the marker byte and keep looking for SOI
+		jr.err = jr.discard(1)
 	}
 	return false
 }
